@@ -24,7 +24,10 @@ import Asn1Verif.Uper.Impl
       the root value is not length-prefixed; a root ENUMERATED is a bare varint;
     * the content of a CHOICE is the selected alternative written with `tag_counter = index`;
     * DEFAULT components are always written; integers: `MIN.unwrap_or(0) >= 0` selects uint32
-      (`MAX <= u32::MAX`, value `as u32`) or uint64, otherwise sint32 (`as i32`) or sint64;
+      (`!EXTENSIBLE && MAX <= u32::MAX`, value `as u32`) or uint64, otherwise sint32
+      (`!EXTENSIBLE` and root inside `i32`, value `as i32`) or sint64 — `MIN`/`MAX` bound the
+      extension root only, an extensible INTEGER always takes the 64-bit encoding (the type the
+      converter selects for it and the generated schema declares);
     * BIT STRING = the octets followed by the bit length as eight big-endian octets.
   Reader facts: a message is indexed into `(tag, format, start..end)` triples from untrusted lengths
   without any bound check (`index_enclosed`); a component takes the FIRST entry with the expected
@@ -58,10 +61,15 @@ inductive IntClass where
   | u32 | u64 | s32 | s64
   deriving DecidableEq, Repr
 
-def intClass (min max : Option Int) : IntClass :=
+/-- `write_number` / `read_number`: the sign from `MIN`, the width from `EXTENSIBLE` and the root
+    (`if MIN.unwrap_or(0) >= 0 { if !EXTENSIBLE && MAX.unwrap_or(i64::MAX) <= u32::MAX {..} else {..} }
+    else if !EXTENSIBLE && MIN.unwrap_or(i64::MIN) >= i32::MIN && MAX.unwrap_or(i64::MAX) <= i32::MAX
+    {..} else {..}`) -/
+def intClass (min max : Option Int) (ext : Bool) : IntClass :=
   if min.getD 0 ≥ 0 then
-    if max.getD I64_MAX ≤ 4294967295 then .u32 else .u64
-  else if min.getD I64_MIN ≥ -2147483648 ∧ max.getD I64_MAX ≤ 2147483647 then .s32 else .s64
+    if ext = false ∧ max.getD I64_MAX ≤ 4294967295 then .u32 else .u64
+  else if ext = false ∧ min.getD I64_MIN ≥ -2147483648 ∧ max.getD I64_MAX ≤ 2147483647 then .s32
+  else .s64
 
 /-- the `u64` handed to `write_varint` (`value.to_i64() as u32 / as u64 / as i32 / -`) -/
 def intToVarint (c : IntClass) (v : Int) : Nat :=
@@ -131,11 +139,11 @@ def encI : Ty → Val → Nat → Outcome (List Item × Nat)
     match v with
     | .null => ok ([], c)
     | _ => err .illTyped
-  | .int min max _ width signed, v, c =>
+  | .int min max ext width signed, v, c =>
     match v with
     | .int i =>
       if castInt width signed i ≠ i then err .illTyped
-      else ok ([.varint (c + 1) (intToVarint (intClass min max) i)], c + 1)
+      else ok ([.varint (c + 1) (intToVarint (intClass min max ext) i)], c + 1)
     | _ => err .illTyped
   | .enum _ total _, v, c =>
     match v with
@@ -375,12 +383,12 @@ def dec (fx : Option Fix) (src : List Byte) : Ty → RState → Outcome (Val × 
       let (b, _) ← readBool r
       ok (.bool b, st)
   | .null, st => ok (.null, st)
-  | .int min max _ width signed, st => do
+  | .int min max ext width signed, st => do
     let (r, st) ← nextReader src .varint st
     if r.isEmpty then ok (.int (castInt width signed 0), st)
     else do
       let (n, _) ← readVarint r
-      ok (.int (castInt width signed (varintToInt (intClass min max) n)), st)
+      ok (.int (castInt width signed (varintToInt (intClass min max ext) n)), st)
   | .enum _ total _, st =>
     match nextTagRange true (some .varint) st with
     | (r, st) => do
